@@ -17,22 +17,45 @@ def lexLe : List Nat → List Nat → Bool
   | _ :: _, [] => false
   | a :: as, b :: bs => a < b || (a == b && lexLe as bs)
 
-/-- a monomial: coefficient × product of atoms (names of constants, or codes of division atoms), atoms sorted -/
-abbrev Mono := Nat × List Nat
+/-- an atom of a monomial: a configuration constant, or a quotient that cannot be simplified (its numerator and
+denominator kept in normalised form) -/
+inductive Atom where
+  | c (n : Name)
+  | q (num den : LExpr)
+  deriving DecidableEq, Repr
+
+/-- prefix serialisation of an expression (only used to order atoms deterministically) -/
+def serL : LExpr → List Nat
+  | .lit n => [0, n]
+  | .const s => [1, s]
+  | .mul a b => 2 :: (serL a ++ serL b)
+  | .add a b => 3 :: (serL a ++ serL b)
+  | .div a b => 4 :: (serL a ++ serL b)
+
+def Atom.key : Atom → List Nat
+  | .c n => [0, n]
+  | .q a b => 1 :: (serL a ++ serL b)
+
+def atomLe (a b : Atom) : Bool := lexLe a.key b.key
+
+def atomsKey (xs : List Atom) : List Nat := xs.flatMap fun a => a.key.length :: a.key
+
+/-- a monomial: coefficient × product of atoms, atoms sorted -/
+abbrev Mono := Nat × List Atom
 /-- a polynomial: monomials sorted by their atom lists, no duplicates, no zero coefficients -/
 abbrev Poly := List Mono
 
-def insertSorted (a : Nat) : List Nat → List Nat
+def insertSorted (a : Atom) : List Atom → List Atom
   | [] => [a]
-  | b :: r => if a ≤ b then a :: b :: r else b :: insertSorted a r
+  | b :: r => if atomLe a b then a :: b :: r else b :: insertSorted a r
 
-def mulAtoms (xs ys : List Nat) : List Nat := xs.foldl (fun acc x => insertSorted x acc) ys
+def mulAtoms (xs ys : List Atom) : List Atom := xs.foldl (fun acc x => insertSorted x acc) ys
 
 def addMono (m : Mono) : Poly → Poly
   | [] => if m.1 == 0 then [] else [m]
   | n :: r =>
     if m.2 == n.2 then (if m.1 + n.1 == 0 then r else (m.1 + n.1, n.2) :: r)
-    else if lexLe m.2 n.2 then (if m.1 == 0 then n :: r else m :: n :: r)
+    else if lexLe (atomsKey m.2) (atomsKey n.2) then (if m.1 == 0 then n :: r else m :: n :: r)
     else n :: addMono m r
 
 def addPoly (p q : Poly) : Poly := p.foldl (fun acc m => addMono m acc) q
@@ -40,33 +63,38 @@ def addPoly (p q : Poly) : Poly := p.foldl (fun acc m => addMono m acc) q
 def mulPoly (p q : Poly) : Poly :=
   p.foldl (fun acc m => q.foldl (fun acc2 n => addMono (m.1 * n.1, mulAtoms m.2 n.2) acc2) acc) []
 
-/-- injective code of a polynomial as a number (for division atoms) -/
-def codePoly (p : Poly) : Nat :=
-  p.foldl (fun acc m => (m.2.foldl (fun a x => Nat.pair a (x + 1)) (Nat.pair acc (m.1 + 1)) + 1)) 0
-where Nat.pair (a b : Nat) : Nat := (a + b) * (a + b + 1) / 2 + b
+def reifyAtom : Atom → LExpr
+  | .c n => .const n
+  | .q a b => .div a b
 
-/-- polynomial normal form; a quotient that is not a quotient of literals is an opaque atom -/
+def reifyAtoms : List Atom → LExpr
+  | [] => .lit 1
+  | a :: r => .mul (reifyAtom a) (reifyAtoms r)
+
+/-- a normal form back as an expression (canonical representative) -/
+def reify : Poly → LExpr
+  | [] => .lit 0
+  | m :: r => .add (.mul (.lit m.1) (reifyAtoms m.2)) (reify r)
+
+/-- polynomial normal form; a quotient that is not a quotient of literals becomes an atom whose numerator and
+denominator are the canonical representatives of their normal forms -/
 def polyNF : LExpr → Poly
   | .lit n => if n == 0 then [] else [(n, [])]
-  | .const s => [(1, [2 * s])]
+  | .const s => [(1, [.c s])]
   | .mul a b => mulPoly (polyNF a) (polyNF b)
   | .add a b => addPoly (polyNF a) (polyNF b)
   | .div a b =>
     match polyNF a, polyNF b with
-    | [], [(_, [])] => []
     | [(x, [])], [(y, [])] => if x / y == 0 then [] else [(x / y, [])]
-    | p, q => [(1, [2 * (Nat.pair (codePoly p) (codePoly q)) + 1])]
-where Nat.pair (a b : Nat) : Nat := (a + b) * (a + b + 1) / 2 + b
+    | p, q => [(1, [.q (reify p) (reify q)])]
 
 /-- two "generic" configurations (a different small value for every name) -/
 def generic1 : Config := fun k => k % 1009 + 2
 def generic2 : Config := fun k => k % 1013 + 5
 
-/-- Equality of length expressions for all configurations: equal polynomial normal forms. Soundness
-(`sameLen a b → ∀ c, a.eval c = b.eval c`) is proved for division-free expressions
-(`Proofs.Lemmas.SSZPolyNF.sameLen_sound`: every list limit and vector length of the schema); quotients — byte
-lengths of bitvectors, the sync-subcommittee size — are opaque atoms of the normal form and rest on the
-normaliser. As a guard the two expressions must also evaluate equally at two generic configurations. -/
+/-- Equality of length expressions for all configurations: equal polynomial normal forms. Sound:
+`sameLen a b → ∀ c, a.eval c = b.eval c` (`Proofs.Lemmas.SSZPolyNF.sameLen_sound`, including quotients). The
+evaluation at two generic configurations is redundant (kept as a cheap cross-check of the normaliser). -/
 def sameLen (a b : LExpr) : Bool :=
   polyNF a == polyNF b && a.eval generic1 == b.eval generic1 && a.eval generic2 == b.eval generic2
 
@@ -316,8 +344,13 @@ def sizeOk (owners : Owners) (views : List ViewDef) (elem : STy) : Option SizeE 
     | some e => isLit e n && n != 0
     | none => n == 0
   | some (.typeByteLength v) =>
+    -- `XType.TypeByteLength()`: only the number matters — the fixed length of what the view type denotes must be
+    -- the fixed length of the element schema
     match viewSTy owners views viewFuel v with
-    | some t => sameSTy t elem && isFixedS elem
+    | some t =>
+      (match fixedLenS t, fixedLenS elem with
+       | some a, some b => sameLen a b
+       | _, _ => false)
     | none => false
   | _ => false
 
@@ -333,8 +366,10 @@ def structOk : List GoField → SFields → Bool
   | [], .nil => true
   | f :: fs, .cons n t r =>
     f.json == n && f.yaml == n &&
+    -- the field's Go type names the very schema the specification gives the field (syntactic identity: both are
+    -- entries / aliases of the same transcription)
     (match goTypeSTy f.goType with
-     | some u => sameSTy u t
+     | some u => u.beq t
      | none => false) && structOk fs r
   | _, _ => false
 
@@ -383,10 +418,15 @@ def htOk (n : Nat) (t : HT) : Bool :=
 /-- a `return <arithmetic>` or `return XType.TypeByteLength()` body of ByteLength / FixedLength -/
 def lengthMethodOk (owners : Owners) (views : List ViewDef) (sty : STy) (isFixedLen : Bool) : Method → Bool
   | .typeByteLength v =>
-    -- TypeByteLength() of a view type denoting this schema: its fixed length, 0 for variable size
-    (match viewSTy owners views viewFuel v with
-     | some t => sameSTy t sty
-     | none => false) && (isFixedS sty || isFixedLen)
+    -- `XType.TypeByteLength()`: the fixed length of what the view type denotes (0 when it is variable-size) must be
+    -- the schema's fixed length; a variable-size schema may only report it (as 0) from FixedLength
+    match viewSTy owners views viewFuel v with
+    | some t =>
+      (match fixedLenS t, fixedLenS sty with
+       | some a, some b => sameLen a b
+       | none, none => isFixedLen
+       | _, _ => false)
+    | none => false
   | .const e =>
     match fixedLenS sty with
     | some s => sameLen s e && !isLit e 0
@@ -447,7 +487,7 @@ def listMethodOk (owners : Owners) (views : List ViewDef) (sty elem : STy) (lim 
          (variant == n!"Uint64ListHTR" && sameSTy elem (.uint 8)) ||
          (variant == n!"Uint8ListHTR" && sameSTy elem (.uint 1)))
     | _ => false
-  | .lenTimes size => which == n!"ByteLength" && sizeOk owners views elem (some size)
+  | .lenTimes size => which == n!"ByteLength" && isFixedS elem && sizeOk owners views elem (some size)
   -- Σ (element.ByteLength + OFFSET_SIZE): the list length for variable-size elements
   | .sumOffsets => which == n!"ByteLength" && !isFixedS elem
   | .opaque _ => true
